@@ -1,5 +1,6 @@
 SPECIFICATION Spec
 CONSTANTS MaxH = 8
+ EmitCases = FALSE
  YPad = "right"
 INVARIANT BlockDepSafe
 CHECK_DEADLOCK FALSE
